@@ -31,6 +31,7 @@ func runC09(c *Ctx) {
 	// a message queued for the loop must not share storage with the reader that keeps filling its buffer (shared with C10/C11)
 	ruleBorrow(c, "borrow-lifetime")
 	c10CopyOut(c)
+	ruleBlockingHandOff(c, "hand-off")
 }
 
 // sharedTypes: struct types that can be reached from two different listeners' proxies: arguments of the per-listener
